@@ -26,6 +26,19 @@ def snap():
                       "div_type": type((e / 2).type).__name__ if n in ("floor", "ceil", "round") else ""}
         except Exception as ex:  # noqa
             out[n] = {"error": type(ex).__name__}
+    # ... and what they EVALUATE to on a connection the host opens now (a listener on Engine could swap the database's own functions)
+    eng = sa.create_engine("sqlite://")
+    with eng.connect() as conn:
+        for n, args in (("lower", ["\u00c9MILE Stra\u00dfe"]), ("upper", ["\u00e9mile stra\u00dfe"]), ("length", ["\u00e9a"]), ("round", [2.5]),
+                        ("substr", ["\u00e9abc", 2]), ("trim", ["\u00a0 x "]), ("strpos", ["abc", "b"]), ("char_length", ["abc"]),
+                        ("floor", [-1.5]), ("ceil", [1.2]), ("ltrim", [" x"]), ("coalesce", [None, 3]), ("my_custom_fn", [1])):
+            try:
+                v = conn.execute(sa.select(getattr(func, n)(*args))).scalar()
+                out.setdefault(n, {})["value"] = repr(v)
+            except Exception as ex:  # noqa
+                out.setdefault(n, {})["value"] = "error:" + type(ex).__name__
+                conn.rollback()
+    eng.dispose()
     return out
 
 
